@@ -128,7 +128,12 @@ func ada(raw, proto, host, href string) {
 // VerifH_C01_one_seed: one seed through the real stages, for every site shape in the bound: the seed is reported
 // finished exactly once, only when nothing in its tree is pending, every in-scope URL was requested exactly once,
 // outlinks reach the queue as fresh seeds, and afterwards the reactor tracks nothing.
-func VerifH_C01_one_seed() {
+func VerifH_C01_one_seed() { c01OneSeed(2) }
+
+// VerifH_C01_one_seed_3assets: the same with up to three embedded assets (thorough tier).
+func VerifH_C01_one_seed_3assets() { c01OneSeed(3) }
+
+func c01OneSeed(maxAssets int) {
 	verifrt.MapOrderAll(false)
 	cfg := &config.Config{WorkersCount: 1, MaxConcurrentAssets: 1, HTTPReadDeadline: 10, UserAgent: "verif", DisableRateLimit: true,
 		ExcludeHosts: []string{"archive.org", "archive-it.org"}}
@@ -211,7 +216,7 @@ func VerifH_C01_one_seed() {
 	}
 	nAssets := 0
 	if rootKind == 0 || rootKind == 4 {
-		nAssets = verifrt.Choice("assets", 3)
+		nAssets = verifrt.Choice("assets", maxAssets+1)
 		for i := 0; i < nAssets; i++ {
 			rp.Assets = append(rp.Assets, pool[verifrt.Choice("asset", len(pool))])
 		}
